@@ -417,12 +417,13 @@ class Engine:
             kw["parallel"] = True
         return kw
 
-    def run_job(self, job_cls=None, job_kwargs=None, **evaluate_kwargs):
-        """Run the whole job; returns (job, exception or None)."""
+    def run_job(self, job_cls=None, job_kwargs=None, job=None, **evaluate_kwargs):
+        """Run the whole job; returns (job, exception or None). With `job` the very same job
+        object is evaluated again (its steps start over)."""
         job_cls = job_cls or fem.Job
         job_kwargs = dict(job_kwargs or {})
-        if job_cls is fem.Job:
-            job = job_cls(steps=self.w.steps, callback=self.callback, **job_kwargs)
+        if job is not None:
+            self.substep_counter.clear()
         else:
             job = job_cls(steps=self.w.steps, callback=self.callback, **job_kwargs)
         self.job = job
